@@ -81,11 +81,27 @@ def generate_cvv(
     block = (pan + expiry + service_code).ljust(32, "0")
     result = _des.encrypt_tdes_ecb(cvk[:8], _binascii.a2b_hex(block[:16]))
     result = _tools.xor(result, _binascii.a2b_hex(block[16:]))
-    result = _des.encrypt_tdes_ecb(cvk, result)
-    return "".join(
+    result_hex = _des.encrypt_tdes_ecb(cvk, result).hex()
+
+    # 3 decimal digits of the result form a CVV
+    cvv = "".join(
         [
             c
-            for c in result.hex()
+            for c in result_hex
             if c in {"1", "2", "3", "4", "5", "6", "7", "8", "9", "0"}
         ][:3]
     )
+
+    # If there are not enough digits, substitute letters with digits:
+    # Input  a b c d e f
+    # Output 0 1 2 3 4 5
+    if len(cvv) < 3:
+        cvv2 = "".join(
+            [c for c in result_hex if c in {"a", "b", "c", "d", "e", "f"}][
+                : 3 - len(cvv)
+            ]
+        )
+        cvv2 = cvv2.translate({97: 48, 98: 49, 99: 50, 100: 51, 101: 52, 102: 53})
+        cvv = cvv + cvv2
+
+    return cvv
